@@ -4,6 +4,7 @@ import builtins, os as _os, json as _json, contextlib, threading
 import lxml.etree as _ET
 
 class Injected(Exception): pass
+class InjectedBase(BaseException): pass        # an interruption that `except Exception` does not see
 
 class Hook:
     """called before every intercepted operation: hook.op(label, path) may raise or block"""
@@ -78,8 +79,8 @@ def intercepted(hook):
 
 class Tracer(Hook):
     """records the operations; raises at the k-th operation that is not part of the finally block"""
-    def __init__(self, k=None):
-        self.k = k; self.trace = []; self.count = 0; self.fired = None
+    def __init__(self, k=None, base=False):
+        self.k = k; self.trace = []; self.count = 0; self.fired = None; self.base = base
         self._isfile_seen = {}
     def op(self, label, path=None):
         fin = False
@@ -93,4 +94,4 @@ class Tracer(Hook):
         i = self.count; self.count += 1
         if self.k is not None and i == self.k:
             self.fired = label
-            raise Injected("injected failure at operation %d (%s)" % (i, label))
+            raise (InjectedBase if self.base else Injected)("injected failure at operation %d (%s)" % (i, label))
